@@ -154,30 +154,34 @@ def check_start(case):
     viols, evals, keys = [], 0, []
     names = {"CH4": [0, 3, 4], "W": [1, 2]}
     resinfo = {"CH4": [("S", 1), ("B", 2), ("S", 3), ("B", 4)], "W": [("W", 1)]}
-    with H.tempdir() as d:
-        base = read_top(d)
-        for molname, idx in (("CH4", 0), ("CH4", 3), ("CH4", 4), ("W", 2)):
-            for r, (resname, resid) in enumerate(resinfo[molname]):
-                for use, spec in spec_strings(molname, idx, resname, resid):
-                    if not use[0] and not use[1]:
-                        continue       # names no molecule at all
-                    top = copy.deepcopy(base)
-                    evals += 1
-                    case1 = dict(kind="start1", spec=spec)
-                    try:
-                        got = find_starting_node_from_spec(top, [spec])
-                    except Exception as exc:  # noqa
-                        viols.append(crash_violation(exc, case1, assertion="start-spec-accepted"))
-                        continue
-                    mols = [idx] if use[1] else names[molname]
-                    want = {mi: None for mi in range(NMOL)}
-                    for mi in mols:
-                        mname = "CH4" if mi in names["CH4"] else "W"
-                        cands = [rr for rr, (rn, rid) in enumerate(resinfo[mname]) if (not use[2] or rn == resname) and (not use[3] or rid == resid)]
-                        want[mi] = cands[0] if cands else None
-                    if got != want and len(viols) < 20:
-                        viols.append(dict(assertion="start-selects-as-written", tags=[], message=f"-start {spec!r}: {got} expected {want}", case=case1, detail={}))
-                    keys.append("start:" + spec)
+    for zero in (False, True):
+        with H.tempdir() as d:
+            # second pass: the same topology with residue ids counted from 0 (as after -split, or in a 0-based itp)
+            base = read_top(d, dict(SYS, resid_from_zero=True) if zero else SYS)
+            if zero:
+                resinfo = {k: [(rn, rid - 1) for rn, rid in v] for k, v in resinfo.items()}
+            for molname, idx in (("CH4", 0), ("CH4", 3), ("CH4", 4), ("W", 2)):
+                for r, (resname, resid) in enumerate(resinfo[molname]):
+                    for use, spec in spec_strings(molname, idx, resname, resid):
+                        if not use[0] and not use[1]:
+                            continue       # names no molecule at all
+                        top = copy.deepcopy(base)
+                        evals += 1
+                        case1 = dict(kind="start1", spec=spec)
+                        try:
+                            got = find_starting_node_from_spec(top, [spec])
+                        except Exception as exc:  # noqa
+                            viols.append(crash_violation(exc, case1, assertion="start-spec-accepted"))
+                            continue
+                        mols = [idx] if use[1] else names[molname]
+                        want = {mi: None for mi in range(NMOL)}
+                        for mi in mols:
+                            mname = "CH4" if mi in names["CH4"] else "W"
+                            cands = [rr for rr, (rn, rid) in enumerate(resinfo[mname]) if (not use[2] or rn == resname) and (not use[3] or rid == resid)]
+                            want[mi] = cands[0] if cands else None
+                        if got != want and len(viols) < 20:
+                            viols.append(dict(assertion="start-selects-as-written", tags=[], message=f"-start {spec!r}: {got} expected {want}", case=case1, detail={}))
+                        keys.append("start:" + spec)
     return viols, evals, keys
 
 
@@ -194,28 +198,41 @@ def check_lig(case):
                 continue
             combos.append((huse, hspec, luse, lspec))
     novol = [(c, True) for c in combos[-2:]] if case["part"] == 0 else []
-    for n, ((huse, hspec, luse, lspec), no_volumes) in enumerate([(c, False) for c in combos] + novol):
-        if n % 4 != case["part"] and not no_volumes:
+    # residue ids counted from 0 (as after -split): host residue S with id 0; the other S residue has id 2
+    zero_combos = []
+    if case["part"] == 1:
+        for huse, hspec in spec_strings("CH4", 3, "S", 0):
+            if huse[3]:
+                zero_combos.append(((huse, hspec, (1, 1, 0, 0), "W#1"), "zero"))
+    for n, ((huse, hspec, luse, lspec), no_volumes) in enumerate([(c, False) for c in combos] + novol + zero_combos):
+        zero = no_volumes == "zero"
+        no_volumes = no_volumes is True
+        if n % 4 != case["part"] and not no_volumes and not zero:
             continue
         # reference selection
         names = {"CH4": [0, 3, 4], "W": [1, 2]}
         hmols = [3] if huse[1] else (names["CH4"] if huse[0] else list(range(NMOL)))
         hosts = []
         resinfo = {"CH4": [("S", 1), ("B", 2), ("S", 3), ("B", 4)], "W": [("W", 1)]}
+        hname, hresid = ("S", 0) if zero else ("B", 2)
+        if zero:
+            resinfo = {k: [(rn, rid - 1) for rn, rid in v] for k, v in resinfo.items()}
         for mi in hmols:
             mname = "CH4" if mi in names["CH4"] else "W"
             for rr, (rn, rid) in enumerate(resinfo[mname]):
-                if (not huse[2] or rn == "B") and (not huse[3] or rid == 2):
+                if (not huse[2] or rn == hname) and (not huse[3] or rid == hresid):
                     hosts.append((mi, rr))
         ligs = [1] if luse[1] else names["W"]
         if len(hosts) > len(ligs):
             continue            # more hosts than ligand molecules: outside the format (one ligand molecule per host)
         s2 = json.loads(json.dumps(sysd))
         s2["kwargs"]["ligands"] = [[hspec, lspec]]
+        if zero:
+            s2["resid_from_zero"] = True
         if no_volumes:
             s2["no_volumes"] = True     # sizes come from polyply's own template volumes (0.47 nm for every single bead here)
         evals += 1
-        case1 = dict(kind="lig1", host=hspec, lig=lspec, no_volumes=no_volumes)
+        case1 = dict(kind="lig1", host=hspec, lig=lspec, no_volumes=no_volumes, zero=zero)
         res = G.run_gen_coords(s2, Chooser([]))
         if res["exc"] is not None:
             viols.append(crash_violation(res["exc"], case1, assertion="ligand-spec-accepted",
@@ -223,7 +240,7 @@ def check_lig(case):
             continue
         want_atoms = G.expand_atoms(s2)
         atoms = res["gro"][0] if res["gro"] else []
-        if [(a[0], a[1], a[2]) for a in atoms] != [(w[2], w[3], w[4]) for w in want_atoms]:
+        if [(a[0] + (1 if zero else 0), a[1], a[2]) for a in atoms] != [(w[2], w[3], w[4]) for w in want_atoms]:
             viols.append(dict(assertion="molecule-list-unchanged", tags=[], message=f"-lig {hspec}:{lspec}: output atoms {[(a[0], a[1], a[2]) for a in atoms]}", case=case1, detail={}))
             continue
         # positions per (mol, residue): single-atom residues, so atom position == residue position
